@@ -67,6 +67,27 @@ def find(nodes, cls, pred=lambda n: True):
     return [n for n in nodes if isinstance(n, cls) and pred(n)]
 
 
+def _is_tag(n, opener):
+    return isinstance(n, peg.Optional) and isinstance(n.expr, peg.And) and any(
+        isinstance(e, peg.Suppress) and isinstance(e.expr, peg.Literal) and e.expr.s == opener for e in n.expr.exprs)
+
+
+def count_token(nodes):
+    """The regex(es) of the count token, found by role: the optional last part of  symbol [..]? {..}? count?
+    (an ordered choice of regexes, or a single one) - not by variable name or by the number of alternatives."""
+    for n in find(nodes, peg.And):
+        ex = n.exprs
+        if len(ex) == 4 and isinstance(ex[0], peg.Regex) and ex[0].actions and _is_tag(ex[1], "[") and _is_tag(ex[2], "{") \
+                and isinstance(ex[3], peg.Optional):
+            inner = ex[3].expr
+            for c in (inner.exprs if isinstance(inner, peg.And) else [inner]):
+                if isinstance(c, peg.Regex):
+                    return [c]
+                if isinstance(c, peg.MatchFirst) and all(isinstance(e, peg.Regex) for e in c.exprs):
+                    return list(c.exprs)
+    return None
+
+
 def ident(I, a):
     iso = I.call(I.global_name("core", "isisotope"), [a], {})
     return (I.getattr(a, "symbol"), int(I.getattr(a, "isotope")) if iso else 0, int(I.getattr(a, "charge")))
@@ -100,18 +121,18 @@ def run(ctx):
             if role == "ion tag body" and "{" in lits and "}" in lits and rx:
                 return rx[0].pattern
         return None
-    cnt = None
-    for n in find(nodes, peg.MatchFirst):
-        if len(n.exprs) == 2 and all(isinstance(e, peg.Regex) for e in n.exprs):
-            pats = [e.pattern for e in n.exprs]
-            if all(relang.inclusion_witness(p, r"[\d.]*") is None for p in pats):
-                cnt = n
-                break
+    cnt = count_token(nodes)
     if cnt is None:
-        raise AnalysisError("the count token (ordered choice of two numeric regexes) was not found in the grammar")
+        raise AnalysisError("the count token (last optional part of the element production) was not found in the grammar")
     code = {"isotope number": code_for("isotope number"), "ion tag body": code_for("ion tag body")}
-    for p in (e.pattern for e in cnt.exprs):
-        code["fraction" if relang.inclusion_witness(r"[1-9]", p) is not None else "whole number"] = p
+    if len(cnt) == 2:
+        for p in (e.pattern for e in cnt):
+            code["fraction" if relang.inclusion_witness(r"[1-9]", p) is not None else "whole number"] = p
+    else:
+        # one regex (or several) for the whole count: compared with the union of the documented terminals
+        del doc["fraction"], doc["whole number"]
+        doc["count"] = "(" + fraction + ")|(" + number + ")"
+        code["count"] = "(" + ")|(".join(e.pattern for e in cnt) + ")"
     for role, dpat in doc.items():
         cpat = code.get(role)
         if cpat is None:
